@@ -109,6 +109,9 @@ def gen_cases(tier, seed):
     for d in _base_descs(tier):
         cases.append(dict(kind='base', shape=d))
     cases.append(dict(kind='cross'))
+    for d in _base_descs('quick'):
+        if d.get('normalize_kv', True) and any(len(kv) > 2 * (p + 1) for kv, p in zip(d['kvs'], d['degrees'])):
+            cases.append(dict(kind='shared_input', shape=d))
     # shapes built with an explicit precision (number of decimal places): a change of 5 * 10**-precision in a large
     # coordinate must be seen (a relative comparison would hide it)
     for d in _base_descs('quick')[:6 if tier == 'quick' else None]:
@@ -195,9 +198,64 @@ def _precision(case, ctx):
             _judge(ctx, 'ctrlpt_precision', a, b, False, dict(case, only=[i, c]), dict(f0, index=i, coord=c, delta=delta))
 
 
+def _shared_input(case, ctx):
+    """two shapes built from the SAME knot list objects (and the same control point lists): a knot of one of them is
+    then changed in place through its own knotvector property; if that edit reaches the shape, the other shape must not
+    move with it and the two must compare unequal"""
+    desc = case['shape']
+    pd = desc['pdim']
+    from geomdl import BSpline, NURBS
+    pts, w, pw = S.net_points(desc, ctx.seed)
+    P = pw if desc['rational'] else pts
+    kv_lists = [list(kv) for kv in desc['kvs']]
+    mod = NURBS if desc['rational'] else BSpline
+    f0 = dict(pdim=pd, rational=desc['rational'], component='knot_shared_input')
+    ctx.state(dict(d=desc, k='shared'), nontrivial=True)
+
+    def make():
+        o = {1: mod.Curve, 2: mod.Surface, 3: mod.Volume}[pd]()
+        if pd == 1:
+            o.degree = desc['degrees'][0]
+            o.set_ctrlpts(P)
+            o.knotvector = kv_lists[0]
+        else:
+            for a, nm in enumerate('uvw'[:pd]):
+                setattr(o, 'degree_' + nm, desc['degrees'][a])
+            o.set_ctrlpts(P, *desc['sizes'])
+            for a, nm in enumerate('uvw'[:pd]):
+                setattr(o, 'knotvector_' + nm, kv_lists[a])
+        return o
+    for d in range(pd):
+        p = desc['degrees'][d]
+        kv0 = list(desc['kvs'][d])
+        for i in range(p + 1, len(kv0) - p - 1):
+            a, b = make(), make()
+            _judge(ctx, 'rebuilt_twin', a, b, True, dict(case), dict(f0, delta=0))
+            new = (kv0[i] + (kv0[i + 1] if kv0[i + 1] > kv0[i] else kv0[i - 1])) / 2.0
+            if new == kv0[i]:
+                continue
+            try:
+                lst = b.knotvector if pd == 1 else b.knotvector[d]
+                lst[i] = new
+            except Exception:
+                continue
+            if _get_kvs(b)[d][i] != new:
+                continue
+            fi = dict(f0, direction='uvw'[d], index=i)
+            rci = dict(case, only=[d, i])
+            ok = _get_kvs(a)[d] == kv0
+            ctx.check('C19.shared_input_independent.knots', ok, rci, fi, kv0, _get_kvs(a)[d],
+                      'editing a knot of one shape changed another shape built from the same input list')
+            if ok:
+                _judge(ctx, 'knot_shared_input', a, b, False, rci, fi)
+            kv_lists[d] = list(kv0)
+
+
 def run_case(case, ctx):
     if case['kind'] == 'cross':
         return _cross(case, ctx)
+    if case['kind'] == 'shared_input':
+        return _shared_input(case, ctx)
     if case['kind'] == 'precision':
         return _precision(case, ctx)
     desc = case['shape']
